@@ -31,11 +31,11 @@ func (c07) Rule() string {
 	return "strings: every string over a 16-symbol alphabet (quotes, backslash, escape letters, digits, newline, NUL, multi-byte runes) up to the tier's length in each of the 5 quote styles (exhaustive), plus seeded longer bodies built from complete / truncated / invalid escape fragments; integers at 2^k, 2^k+-1, 10^k, 10^k+-1 in decimal and hex, signed and unsigned (exhaustive); floats: seeded float64 bit patterns printed in e, f and shortest form; keyword case variants (exhaustive). Each spelling is placed in `x = <spelling>` and parsed by the real parser; an independent decoder says well-formed(value) / malformed / ambiguous. Distinct = distinct spellings; non-trivial = contains an escape, quote or multi-byte rune, or is numeric."
 }
 
-var c07Alphabet = []string{"a", "\"", "'", "`", "\\", "n", "x", "u", "U", "0", "4", "8", "\n", "\x00", "é", "世"}
+var c07Alphabet = []string{"a", "\"", "'", "`", "\\", "n", "x", "u", "U", "0", "4", "8", "\n", "\x00", "é", "世", "\r"}
 
 var c07Frags = []string{"a", "z", " ", "é", "世", "\x00", "\\a", "\\b", "\\f", "\\n", "\\r", "\\t", "\\v", "\\\\", "\\\"", "\\'", "\\`",
 	"\\101", "\\377", "\\400", "\\08", "\\1", "\\x41", "\\xff", "\\x4", "\\xg1", "\\X41", "\\u00e9", "\\u4e16", "\\ud800", "\\udfff", "\\u12",
-	"\\U0001F600", "\\U00110000", "\\U0000d800", "\\U1234", "\\U80000041", "\\UFFFFFFFF", "\\UDEADBEEF", "\\U7FFFFFFF", "\\uFFFF", "\\U0010FFFF", "\\xFF", "\\777", "\\x00", "\\z", "\\ ", "\\", "\"", "'", "`", "\n", "#", "\"\"", "''", "\\\n", "0", "x"}
+	"\\U0001F600", "\\U00110000", "\\U0000d800", "\\U1234", "\\U80000041", "\\UFFFFFFFF", "\\UDEADBEEF", "\\U7FFFFFFF", "\\uFFFF", "\\U0010FFFF", "\\xFF", "\\777", "\\x00", "\\z", "\\ ", "\\", "\"", "'", "`", "\n", "#", "\"\"", "''", "\\\n", "0", "x", "\r", "\r\n", "\t", "\x7f", "\u00a0", "\u2028", "\ufeff"}
 
 var c07Styles = []string{"\"", "'", "`", "\"\"\"", "'''"}
 
